@@ -5,12 +5,13 @@ CONSTANTS
   NTxn = 2
   NReads = 1
   MCHows = {"commit", "rollback"}
-  Plans <- MCPlans
+  Plans <- MCPlansLive
   RPlans <- MCRPlans
   InitVid = 2
   Policers = {7}
   PPlans <- MCPPlans
 PROPERTY AbsSpec
+PROPERTY AbsNoCuts
 INVARIANT AbsIndInv
 INVARIANT AbsSafety
 INVARIANT SameProperties
